@@ -229,6 +229,9 @@ func c13Run(f []string) string {
 	if op == "groups" {
 		return c13RunGroups(f)
 	}
+	if op == "axes" || op == "axesagg" {
+		return c13RunAxes(f)
+	}
 	if op == "tparse" {
 		return c13TParse(string(UnHex(f[1])), UnHexListS(f[2]))
 	}
@@ -945,6 +948,12 @@ func c13Gen(r *Rand, tier string) []string {
 	} else {
 		out = append(out, c13GroupsCases(r, 400)...)
 	}
+	// two sorters (rows, columns) and the render loop of table / heatmap / spark
+	if tier == "thorough" {
+		out = append(out, c13AxesCases(r, 8000)...)
+	} else {
+		out = append(out, c13AxesCases(r, 500)...)
+	}
 	// the modelled library calls against the real ones
 	if tier == "thorough" {
 		out = append(out, c13LibCases(r, 6000)...)
@@ -1048,6 +1057,27 @@ func c13Stats(cases []string) map[string]int {
 			}
 			if f[1] == "1" {
 				st["groups.reversed"]++
+			}
+			continue
+		case "axes", "axesagg":
+			rn, cn := c13BaseMode(string(UnHex(f[1]))), c13BaseMode(string(UnHex(f[2])))
+			isStateful := func(m string) bool { return m == "contextual" || m == "context" || m == "date" }
+			rows, cols := UnHexListS(f[3]), UnHexListS(f[4])
+			if isStateful(rn) && isStateful(cn) {
+				st["axes.bothStateful"]++
+				if (rn == "date") == (cn == "date") {
+					st["axes.sameStatefulMode"]++
+					all := append(append([]string{}, rows...), cols...)
+					if len(rows) > 1 && len(cols) > 1 && c13Uniform(rn, rows) && c13Uniform(cn, cols) && !c13Uniform(rn, all) {
+						st["axes.sameModeDifferentKindsEachUniform"]++
+					}
+				}
+			}
+			if !c13Uniform(rn, rows) || !c13Uniform(cn, cols) {
+				st["axes.someAxisNonUniform"]++
+			}
+			if n := len(c13ParseRenders(f[5])); n > 1 {
+				st["axes.severalRenders"]++
 			}
 			continue
 		case "tparse":
@@ -1351,6 +1381,7 @@ func c13Corpus() []string {
 		out = append(out, c13TParseCases(rr, ks)...)
 	}
 	out = append(out, c13GroupsCorpus()...)
+	out = append(out, c13AxesCorpus()...)
 	out = append(out, "tparse "+HexS("2006-01-02T15:04:05-0700")+" "+HexListS([]string{"2022-09-03T10:00:00+0000", "2022-09-03T12:00:00+0200", "2022-09-03T05:00:00-0500",
 		"2022-09-03T10:00:00+2400", "2022-09-03T10:00:00+2500", "2022-09-03T10:00:00+0060", "2022-09-03T10:00:00+0061", "2022-09-03T10:00:00 0000", "2022-09-03T10:00:00Z",
 		"2022-09-03T24:00:00+0000", "2022-02-29T10:00:00+0000", "2024-02-29T10:00:00+0000", "2022-09-03T10:00:00.5+0000", "2022-09-03T10:00:00,25+0000", "2022-09-03T10:00:60+0000",
